@@ -94,32 +94,41 @@ theorem nullRejecting_false_left (e : Expr) (he : e.nullRejecting = true) (hs : 
     e.holds (nullRow n) r = false := by
   cases e <;> simp_all [Expr.nullRejecting, Expr.side, Expr.holds, Expr.eval, colOf, nullRow_col, cmpVal]
 
-/-- a pushed filter list is either empty (the fetch filter is the identity) or false on the all-NULL row -/
-theorem pushed_right_null (w : Option Expr) (h : pushedNullSafe 1 w = true) (n : Nat) :
-    pushedFor 1 w = [] ∨ holdsAll (pushedFor 1 w) [] (nullRow n) = false := by
-  cases hp : pushedFor 1 w with
+/-- a list of NULL-rejecting filters on one side is either empty (the fetch filter is the identity) or false on the
+all-NULL row -/
+theorem list_right_null (es : List Expr) (hall : ∀ x ∈ es, x.nullRejecting = true) (hside : ∀ x ∈ es, x.side = 1)
+    (n : Nat) : es = [] ∨ holdsAll es [] (nullRow n) = false := by
+  cases es with
   | nil => exact Or.inl rfl
   | cons e es =>
     right
-    have hall : ∀ x ∈ pushedFor 1 w, x.nullRejecting = true := by
-      simpa [pushedNullSafe, List.all_eq_true] using h
-    have hside := pushedFor_side 1 w
-    rw [hp] at hall hside
     simp [holdsAll, List.all_cons,
       nullRejecting_false_right e (hall e List.mem_cons_self) (hside e List.mem_cons_self) [] n]
 
-theorem pushed_left_null (w : Option Expr) (h : pushedNullSafe 0 w = true) (n : Nat) :
-    pushedFor 0 w = [] ∨ holdsAll (pushedFor 0 w) (nullRow n) [] = false := by
-  cases hp : pushedFor 0 w with
+theorem list_left_null (es : List Expr) (hall : ∀ x ∈ es, x.nullRejecting = true) (hside : ∀ x ∈ es, x.side = 0)
+    (n : Nat) : es = [] ∨ holdsAll es (nullRow n) [] = false := by
+  cases es with
   | nil => exact Or.inl rfl
   | cons e es =>
     right
-    have hall : ∀ x ∈ pushedFor 0 w, x.nullRejecting = true := by
-      simpa [pushedNullSafe, List.all_eq_true] using h
-    have hside := pushedFor_side 0 w
-    rw [hp] at hall hside
     simp [holdsAll, List.all_cons,
       nullRejecting_false_left e (hall e List.mem_cons_self) (hside e List.mem_cons_self) [] n]
+
+theorem pushedForK_side (k : JoinKind) (side : Nat) (w : Option Expr) : ∀ e ∈ pushedForK k side w, e.side = side :=
+  fun e he => pushedFor_side side w e (List.mem_filter.mp he).1
+
+theorem pushedForK_null (k : JoinKind) (side : Nat) (w : Option Expr) (hk : nullableSide k side = true) :
+    ∀ e ∈ pushedForK k side w, e.nullRejecting = true := by
+  intro e he
+  have := (List.mem_filter.mp he).2
+  simpa [hk] using this
+
+theorem holdsAll_filter (es : List Expr) (p : Expr → Bool) (l r : TRow) (h : holdsAll es l r = true) :
+    holdsAll (es.filter p) l r = true := by
+  unfold holdsAll at *
+  rw [List.all_eq_true] at *
+  intro x hx
+  exact h x (List.mem_filter.mp hx).1
 
 theorem filter_true' {δ : Type} (l : List δ) : l.filter (fun _ => true) = l := by
   induction l with
@@ -131,31 +140,31 @@ end MindsVerif.Sem
 namespace MindsVerif.Sem
 
 /-- the two fetch predicates of the model plan -/
-def pL (q : Q2) (l : TRow) : Bool := holdsAll (pushedFor 0 q.w) l []
-def pR (q : Q2) (r : TRow) : Bool := holdsAll (pushedFor 1 q.w) [] r
+def pL (q : Q2) (l : TRow) : Bool := holdsAll (pushedForK q.kind 0 q.w) l []
+def pR (q : Q2) (r : TRow) : Bool := holdsAll (pushedForK q.kind 1 q.w) [] r
 
 theorem where_pL (q : Q2) (l r : TRow) (hw : whereOf q.w (l, r) = true) : pL q l = true := by
   unfold pL
-  rw [← holdsAll_side0 _ (pushedFor_side 0 q.w) l r []]
-  exact pushed_of_where 0 q.w l r hw
+  rw [← holdsAll_side0 _ (pushedForK_side q.kind 0 q.w) l r []]
+  exact holdsAll_filter _ _ l r (pushed_of_where 0 q.w l r hw)
 
 theorem where_pR (q : Q2) (l r : TRow) (hw : whereOf q.w (l, r) = true) : pR q r = true := by
   unfold pR
-  rw [← holdsAll_side1 _ (pushedFor_side 1 q.w) l [] r]
-  exact pushed_of_where 1 q.w l r hw
+  rw [← holdsAll_side1 _ (pushedForK_side q.kind 1 q.w) l [] r]
+  exact holdsAll_filter _ _ l r (pushed_of_where 1 q.w l r hw)
 
-theorem pR_id_or_null (q : Q2) (h : pushedNullSafe 1 q.w = true) (n : Nat) :
+theorem pR_id_or_null (q : Q2) (h : nullableSide q.kind 1 = true) (n : Nat) :
     (∀ R : List TRow, R.filter (pR q) = R) ∨ pR q (nullRow n) = false := by
-  rcases pushed_right_null q.w h n with h0 | h1
+  rcases list_right_null _ (pushedForK_null q.kind 1 q.w h) (pushedForK_side q.kind 1 q.w) n with h0 | h1
   · left
     intro R
     have : pR q = fun _ => true := by funext r; simp [pR, h0, holdsAll]
     rw [this, filter_true']
   · right; exact h1
 
-theorem pL_id_or_null (q : Q2) (h : pushedNullSafe 0 q.w = true) (n : Nat) :
+theorem pL_id_or_null (q : Q2) (h : nullableSide q.kind 0 = true) (n : Nat) :
     (∀ L : List TRow, L.filter (pL q) = L) ∨ pL q (nullRow n) = false := by
-  rcases pushed_left_null q.w h n with h0 | h1
+  rcases list_left_null _ (pushedForK_null q.kind 0 q.w h) (pushedForK_side q.kind 0 q.w) n with h0 | h1
   · left
     intro L
     have : pL q = fun _ => true := by funext r; simp [pL, h0, holdsAll]
@@ -179,8 +188,8 @@ def fetch1 (q : Q2) (db : DB) (F0 : List TRow) : List TRow :=
     (!semiAllowed q.kind || sqlIn (r.col q.c1) (distinct (F0.map fun l => l.col q.c0)) == .t)
 
 /-- **core**: whatever sub-list `F0` of rows the left fetch returned, restricting the right fetch by the pushed WHERE
-filters and the IN filter does not change join + WHERE (needs `nullSafe` for the operand padded with NULLs) -/
-theorem core_right (q : Q2) (db : DB) (hs : nullSafe q = true) (F0 : List TRow) :
+filters and the IN filter does not change join + WHERE (on a null-supplying side the plan keeps only NULL-rejecting filters) -/
+theorem core_right (q : Q2) (db : DB) (F0 : List TRow) :
     (joinK q.kind (eqOn q.c0 q.c1) db F0 (fetch1 q db F0)).filter (whereOf q.w)
       = (joinK q.kind (eqOn q.c0 q.c1) db F0 db.t1).filter (whereOf q.w) := by
   unfold fetch1
@@ -190,14 +199,14 @@ theorem core_right (q : Q2) (db : DB) (hs : nullSafe q = true) (F0 : List TRow) 
     rw [filter_and' (pR q), innerJoin_restrict _ _ _ _ _ (semi_ok q F0)]
     exact push_right_inner _ _ _ _ (where_pR q) _ _
   | left =>
-    have hs' : pushedNullSafe 1 q.w = true := by simpa [nullSafe, hk] using hs
+    have hs' : nullableSide q.kind 1 = true := by rw [hk]; rfl
     simp only [joinK, semiAllowed, Bool.not_true, Bool.false_or]
     rw [filter_and' (pR q), leftJoin_restrict _ _ _ _ _ _ (semi_ok q F0)]
     rcases pR_id_or_null q hs' db.n1 with h | h
     · rw [h]
     · exact push_right_left _ _ _ _ _ (where_pR q) h _ _
   | leftOuter =>
-    have hs' : pushedNullSafe 1 q.w = true := by simpa [nullSafe, hk] using hs
+    have hs' : nullableSide q.kind 1 = true := by rw [hk]; rfl
     simp only [joinK, semiAllowed, Bool.not_true, Bool.false_or]
     rw [filter_and' (pR q), leftJoin_restrict _ _ _ _ _ _ (semi_ok q F0)]
     rcases pR_id_or_null q hs' db.n1 with h | h
@@ -207,16 +216,14 @@ theorem core_right (q : Q2) (db : DB) (hs : nullSafe q = true) (F0 : List TRow) 
     simp only [joinK, semiAllowed, Bool.not_false, Bool.true_or, Bool.and_true]
     exact push_right_right _ _ _ _ _ (where_pR q) _ _
   | full =>
-    have hs' : pushedNullSafe 1 q.w = true := by
-      have : (pushedNullSafe 0 q.w && pushedNullSafe 1 q.w) = true := by simpa [nullSafe, hk] using hs
-      exact (Bool.and_eq_true _ _ ▸ this).2
+    have hs' : nullableSide q.kind 1 = true := by rw [hk]; rfl
     simp only [joinK, semiAllowed, Bool.not_false, Bool.true_or, Bool.and_true]
     rcases pR_id_or_null q hs' db.n1 with h | h
     · rw [h]
     · exact push_right_full _ _ _ _ _ _ (where_pR q) h _ _
 
 /-- **core, left operand**: restricting the left fetch by the pushed WHERE filters -/
-theorem core_left (q : Q2) (db : DB) (hs : nullSafe q = true) (R : List TRow) :
+theorem core_left (q : Q2) (db : DB) (R : List TRow) :
     (joinK q.kind (eqOn q.c0 q.c1) db (db.t0.filter (pL q)) R).filter (whereOf q.w)
       = (joinK q.kind (eqOn q.c0 q.c1) db db.t0 R).filter (whereOf q.w) := by
   cases hk : q.kind with
@@ -224,15 +231,13 @@ theorem core_left (q : Q2) (db : DB) (hs : nullSafe q = true) (R : List TRow) :
   | left => exact push_left_left _ _ _ _ _ (where_pL q) _ _
   | leftOuter => exact push_left_left _ _ _ _ _ (where_pL q) _ _
   | right =>
-    have hs' : pushedNullSafe 0 q.w = true := by simpa [nullSafe, hk] using hs
+    have hs' : nullableSide q.kind 0 = true := by rw [hk]; rfl
     simp only [joinK]
     rcases pL_id_or_null q hs' db.n0 with h | h
     · rw [h]
     · exact push_left_right _ _ _ _ _ (where_pL q) h _ _
   | full =>
-    have hs' : pushedNullSafe 0 q.w = true := by
-      have : (pushedNullSafe 0 q.w && pushedNullSafe 1 q.w) = true := by simpa [nullSafe, hk] using hs
-      exact (Bool.and_eq_true _ _ ▸ this).1
+    have hs' : nullableSide q.kind 0 = true := by rw [hk]; rfl
     simp only [joinK]
     rcases pL_id_or_null q hs' db.n0 with h | h
     · rw [h]
@@ -278,15 +283,17 @@ theorem pure_facts (s : Nat) (e : Expr) (h : e.pureConj s = true) :
   | or a b _ _ => simp [Expr.pureConj] at h
   | not a _ => simp [Expr.pureConj] at h
 
-theorem where_eq_pL (q : Q2) (h : whereLeftOnly q.w = true) (l r : TRow) : whereOf q.w (l, r) = pL q l := by
+theorem where_eq_pL (q : Q2) (h : whereLeftOnly q.w = true) (hnl : nullableSide q.kind 0 = false) (l r : TRow) :
+    whereOf q.w (l, r) = pL q l := by
   unfold pL
   cases hw : q.w with
-  | none => simp [whereOf, pushedFor, holdsAll]
+  | none => simp [whereOf, pushedForK, pushedFor, holdsAll]
   | some e =>
     have hp : e.pureConj 0 = true := by simpa [whereLeftOnly, hw] using h
     obtain ⟨h1, h2, h3⟩ := pure_facts 0 e hp
-    have hpush : pushedFor 0 (some e) = e.collected := by
-      unfold pushedFor
+    have hpush : pushedForK q.kind 0 (some e) = e.collected := by
+      unfold pushedForK pushedFor
+      simp only [hnl, Bool.not_false, Bool.true_or, filter_true']
       simp only [h1, Bool.false_eq_true, if_false]
       apply filter_eq_self_of
       intro x hx
@@ -298,16 +305,11 @@ theorem where_eq_pL (q : Q2) (h : whereLeftOnly q.w = true) (l r : TRow) : where
 
 /-- **the fragment theorem, all join kinds, with LIMIT** -/
 theorem plan2_sound (q : Q2) (db : DB) (h : planSound q = true) : execPlan (plan q) db = evalQuery q db := by
-  have hns : nullSafe q = true := by
-    have : (nullSafe q && limitSound q) = true := h
-    exact (Bool.and_eq_true _ _ ▸ this).1
-  have hls : limitSound q = true := by
-    have : (nullSafe q && limitSound q) = true := h
-    exact (Bool.and_eq_true _ _ ▸ this).2
+  have hls : limitSound q = true := h
   have hexec : ∀ F0 : List TRow, (joinK q.kind (eqOn q.c0 q.c1) db F0
       (db.t1.filter fun r => holdsAll (plan q).push1 [] r &&
         (!(plan q).semi1 || sqlIn (r.col q.c1) (distinct (F0.map fun l => l.col q.c0)) == .t))).filter (whereOf q.w)
-      = (joinK q.kind (eqOn q.c0 q.c1) db F0 db.t1).filter (whereOf q.w) := fun F0 => core_right q db hns F0
+      = (joinK q.kind (eqOn q.c0 q.c1) db F0 db.t1).filter (whereOf q.w) := fun F0 => core_right q db F0
   cases hl0 : (plan q).limit0 with
   | none =>
     show limitOf q.limit _ = limitOf q.limit _
@@ -317,7 +319,7 @@ theorem plan2_sound (q : Q2) (db : DB) (h : planSound q = true) : execPlan (plan
     show (joinK q.kind (eqOn q.c0 q.c1) db _ _).filter (whereOf q.w) = _
     unfold execPlan at *
     simp only [hl0, limitOf] at this ⊢
-    exact this.trans (core_left q db hns db.t1)
+    exact this.trans (core_left q db db.t1)
   | some n =>
     -- LIMIT pushed: LEFT join and WHERE evaluated completely in the first fetch
     have hcond : (q.kind.isLeft && whereLeftOnly q.w) = true := by
@@ -326,6 +328,8 @@ theorem plan2_sound (q : Q2) (db : DB) (h : planSound q = true) : execPlan (plan
     simp only [Bool.and_eq_true] at hcond
     have hleft : q.kind.isLeft = true := hcond.1
     have hwl : whereLeftOnly q.w = true := hcond.2
+    have hnl : nullableSide q.kind 0 = false := by
+      cases hk : q.kind <;> simp_all [JoinKind.isLeft, nullableSide]
     have hlim : q.limit = some n := by
       have : (plan q).limit0 = some n := hl0
       unfold plan at this
@@ -345,7 +349,7 @@ theorem plan2_sound (q : Q2) (db : DB) (h : planSound q = true) : execPlan (plan
       apply filter_eq_self_of
       intro x hx
       obtain ⟨l, hl, r, rfl⟩ := mem_leftJoin _ _ _ _ _ x hx
-      rw [where_eq_pL q hwl l r]
+      rw [where_eq_pL q hwl hnl l r]
       exact hL l hl
     have hF : ∀ l ∈ db.t0.filter (pL q), pL q l = true := fun l hl => (List.mem_filter.mp hl).2
     have hFt : ∀ l ∈ (db.t0.filter (pL q)).take n, pL q l = true :=
@@ -353,7 +357,7 @@ theorem plan2_sound (q : Q2) (db : DB) (h : planSound q = true) : execPlan (plan
     have e1 := hexec ((db.t0.filter (pL q)).take n)
     rw [hjoin, hjoin] at e1
     have e2 := hid ((db.t0.filter (pL q)).take n) db.t1 hFt
-    have e3 := core_left q db hns db.t1
+    have e3 := core_left q db db.t1
     rw [hjoin, hjoin] at e3
     have e4 := hid (db.t0.filter (pL q)) db.t1 hF
     have hpl : (plan q).limit = some n := hlim
